@@ -55,6 +55,13 @@ def generate(rng: random.Random, tier: str):
         pre = rng.choice(["fresh", "foreign", "geff"])
         yield {"kind": "invalid", "entry": "write_arrays", "fmt": rng.choice([2, 3]), "pre": pre, "overwrite": pre == "geff",
                "validate": True, "old": small_graph(rng) if pre == "geff" else None, **malform(rng, g)}
+    # overwrite of a geff of the SAME SHAPE (same numbers of nodes and edges, same property names, other ids and values): a failure
+    # that is swallowed somewhere inside the deletion would let old metadata / old property arrays pair up with new id arrays into a
+    # store that validates -- the one combination a crash state needs in order to be recognised as a wrong graph
+    for i in range(8 if tier == "quick" else 60):
+        g = rich_old(rng)
+        yield {"kind": "crash", "entry": "write_arrays", "fmt": rng.choice([2, 3]), "pre": "geff", "overwrite": True, "validate": True,
+               "old": same_shape_other_values(rng, g), **g}
     for i in range(14 if tier == "quick" else 120):
         yield dicts_case(rng)
     for i in range(40 if tier == "quick" else 400):
@@ -75,6 +82,31 @@ def generate(rng: random.Random, tier: str):
     from harness import c05_entries
 
     yield from c05_entries.generate(rng, tier)
+
+
+def same_shape_other_values(rng, g):
+    """a graph with the node / edge counts, dtypes and property names of g, and other ids and property values"""
+    import copy
+
+    h = copy.deepcopy(g)
+    n = h["nids"]["shape"][0]
+    perm = list(h["nids"]["data"])
+    rng.shuffle(perm)
+    remap = dict(zip(h["nids"]["data"], perm))
+    if perm == h["nids"]["data"] and n >= 2:
+        perm = perm[1:] + perm[:1]
+        remap = dict(zip(h["nids"]["data"], perm))
+    h["nids"]["data"] = perm
+    h["eids"]["data"] = [remap.get(x, x) for x in h["eids"]["data"]]
+    for ps in (h["nprops"], h["eprops"]):
+        for p in (ps or {}).values():
+            v = p["values"]
+            if "vlen" in v:
+                for e in v["vlen"]:
+                    e["data"] = list(reversed(e["data"]))
+            else:
+                v["data"] = list(reversed(v["data"]))
+    return h
 
 
 def rich_old(rng):
